@@ -197,3 +197,54 @@ def reference_parse(run, cid, inp, max_steps=20000):
                 if k2 != 0: break
                 if t == eof: return "NONE", msgs, ctx
                 i += 1
+
+
+def parse_value_tree(txt):
+    """'r3(t[61]@1:1,r0())' -> ('r', 3, [children]) / ('t', text)"""
+    pos = 0
+    def node():
+        nonlocal pos
+        if txt.startswith("err", pos): pos += 3; return ("e",)
+        if txt[pos] == "t":
+            j = pos
+            while j < len(txt) and txt[j] not in ",)": j += 1
+            leaf = ("t", txt[pos:j]); pos = j; return leaf
+        assert txt[pos] == "r", txt[pos:pos + 20]
+        j = txt.index("(", pos); r = int(txt[pos + 1:j]); pos = j + 1; ch = []
+        while txt[pos] != ")":
+            ch.append(node())
+            if txt[pos] == ",": pos += 1
+        pos += 1
+        return ("r", r, ch)
+    t = node()
+    assert pos == len(txt), (txt, pos)
+    return t
+
+def ill_grouped(c, value_text, sr_expected):
+    """None: no binary operator node in the tree; '': every operator node is grouped as the documented rule says; else a description of
+    the first offending node. Binary operator rule: e -> e t e. (a t0 b) t c needs 'reduce' for (rule of t0, t); a t (b t2 c) needs 'shift' for (rule of t, t2)."""
+    try: tree = parse_value_tree(value_text)
+    except Exception: return None
+    lhs = {r: l for (l, r, n) in c["ri"]}
+    def binop(r):
+        rs = c["rs"][r]
+        if len(rs) == 3 and tuple(rs[0]) == (0, lhs[r]) and tuple(rs[2]) == (0, lhs[r]) and rs[1][0] == 1: return (lhs[r], rs[1][1])
+        return None
+    seen = [False]; bad = [""]
+    def walk(n):
+        if n[0] != "r": return
+        b = binop(n[1])
+        if b and len(n[2]) == 3:
+            seen[0] = True; e, t = b; L, _, R = n[2]
+            if L[0] == "r":
+                b0 = binop(L[1])
+                if b0 and b0[0] == e and sr_expected(c, L[1], t) != 4 and not bad[0]:
+                    bad[0] = f"node of rule {n[1]} (operator term {t}) has as LEFT operand a node of rule {L[1]}, but the documented rule says shift for (rule {L[1]}, term {t})"
+            if R[0] == "r":
+                b2 = binop(R[1])
+                if b2 and b2[0] == e and sr_expected(c, n[1], b2[1]) != 2 and not bad[0]:
+                    bad[0] = f"node of rule {n[1]} has as RIGHT operand a node of rule {R[1]} (operator term {b2[1]}), but the documented rule says reduce for (rule {n[1]}, term {b2[1]})"
+        for ch in n[2]: walk(ch)
+    walk(tree)
+    if not seen[0]: return None
+    return bad[0]
